@@ -279,7 +279,7 @@ fn run_store<S: Settings>(settings: S, sc: &StoreScenario) -> RunOutcome {
                             out.violate(format!("C15/zarr_sync/call_failed/{site}"), m.chars().take(200).collect::<String>());
                         }
                     }
-                    if !bad {
+                    if !bad && prop != "C13" {
                         zarr_checks("zarr_sync", prop, "fresh reader after finalize", snapshot_store(fstore.inner.as_ref()), &h, &lens, None, sc, prop == "C14", &mut out);
                     }
                 }
@@ -484,7 +484,7 @@ fn run_zarr_async<S: Settings>(settings: &S, sc: &StoreScenario, h: &Histories, 
                 out.violate(format!("C15/zarr_async/call_failed/{site}"), m.chars().take(200).collect::<String>());
             }
         }
-        if !bad {
+        if !bad && prop != "C13" {
             // right after finalize returned: everything must be in the store
             zarr_checks("zarr_async", prop, "fresh reader after finalize", snapshot_store(store.inner.as_ref()), h, lens, None, sc, prop == "C14", out);
         }
@@ -494,6 +494,17 @@ fn run_zarr_async<S: Settings>(settings: &S, sc: &StoreScenario, h: &Histories, 
 
 impl Scenario for StoreScenario {
     fn run(&self) -> RunOutcome {
+        if let (None, Some(k)) = (self.fail_write, self.fail_write_from_end) {
+            // dry run without fault: count the store writes, then place the fault k writes before the end
+            let mut dry = self.clone();
+            dry.fail_write_from_end = None;
+            let o = dry.run();
+            let total = o.probes.iter().filter(|(n, _)| n.as_str() == "store_writes" || n.as_str() == "async_store_writes").map(|(_, v)| *v).sum::<u64>();
+            let mut real = self.clone();
+            real.fail_write_from_end = None;
+            real.fail_write = Some(total.saturating_sub(1 + k));
+            return real.run();
+        }
         match &self.preset {
             Preset::DiagNuts(s) => run_store(*s, self),
             Preset::LowRankNuts(s) => run_store(*s, self),
@@ -578,6 +589,7 @@ impl Scenario for StoreScenario {
             "chunk_size": self.chunk_size, "store_warmup": self.store_warmup, "prefix": self.prefix,
             "flush_prob": self.flush_prob, "inspect_prob": self.inspect_prob, "density_faults": self.density_faults.len(),
             "fail_write": self.fail_write,
+            "fail_write_from_end": self.fail_write_from_end,
         })
     }
 }
